@@ -350,9 +350,45 @@ SCOPE_FNS = [
 ]
 
 
+PAREN_TEST = r"if \(kind > TERMINALS && \(([^()]*)\)\) out << '([()])';"
+PAREN_PLACEHOLDER = "if (<which operator nodes print parentheses: Gen.printParenthesisesColon>) out << '%s';"
+
+
+def print_paren_tests():
+    """the two tests of op_t::print (op.cc 669-670, 860-861) that decide which nodes are wrapped in parentheses:
+    -> (does an O_COLON node get parentheses of its own?, body text with the two tests replaced by a placeholder)"""
+    body = dict(pin_functions("op.cc", [("op.cc:print", dict(OP_FNS)["op.cc:print"])]))["op.cc:print"]
+    found = re.findall(PAREN_TEST, body)
+    need(len(found) == 2 and [f[1] for f in found] == ["(", ")"], "op_t::print: the two parenthesis tests were not found: %s" % found)
+    need(found[0][0] == found[1][0], "op_t::print: opening and closing parenthesis tests differ: %s" % found)
+    excl = sorted(x.strip() for x in found[0][0].split("&&"))
+    if excl == ["kind != O_CALL", "kind != O_DEFINE"]:
+        colon = True
+    elif excl == ["kind != O_CALL", "kind != O_COLON", "kind != O_DEFINE"]:
+        colon = False
+    else:
+        raise ExtractError("op_t::print: parenthesis test not recognised: " + found[0][0])
+    masked = re.sub(PAREN_TEST, lambda m: PAREN_PLACEHOLDER % m.group(2), body)
+    return colon, masked
+
+
+def gen_expr_flags():
+    colon, _ = print_paren_tests()
+    out = ["/- GENERATED by tools/extract_expr.py from src/op.cc - do not edit. -/",
+           "namespace Ledger.Gen", "",
+           "/-- op.cc op_t::print, `if (kind > TERMINALS && (kind != O_CALL && kind != O_DEFINE ...))`: does the O_COLON node of a",
+           "    conditional get parentheses of its own (`(a ? (b : c))`, which the parser rejects)? -/",
+           "def printParenthesisesColon : Bool := %s" % ("true" if colon else "false"), "",
+           "end Ledger.Gen"]
+    return "\n".join(out) + "\n"
+
+
 def gen_expr_fns():
     pairs = pin_functions("parser.cc", PARSER_FNS) + pin_functions("token.cc", TOKEN_FNS) + pin_functions("op.cc", OP_FNS) + \
         pin_functions("value.cc", VALUE_FNS) + pin_functions("scope.cc", SCOPE_FNS)
+    # the two parenthesis tests of op_t::print are interpreted (Gen.printParenthesisesColon), not pinned
+    _, masked = print_paren_tests()
+    pairs = [(k, masked if k == "op.cc:print" else v) for k, v in pairs]
     # op.h: the order of op_t::kind_t decides which nodes print parentheses and which operands compile (`kind > TERMINALS`, `> UNARY_OPERATORS`)
     oh = strip_comments(src("op.h"))
     m = re.search(r"enum kind_t \{(.*?)\};", oh, flags=re.S)
@@ -366,7 +402,7 @@ def gen_expr_fns():
                      "exprFns", pairs, "src/parser.cc, src/token.cc, src/op.cc, src/op.h, src/value.cc, src/scope.cc, src/scope.h")
 
 
-MORE = {"Ladder": gen_ladder, "TokenSpellings": gen_token_spellings, "ExprFns": gen_expr_fns}
+MORE = {"Ladder": gen_ladder, "TokenSpellings": gen_token_spellings, "ExprFns": gen_expr_fns, "ExprFlags": gen_expr_flags}
 
 if __name__ == "__main__":
     print(gen_ladder())
